@@ -346,6 +346,17 @@ def register(cls):
     return cls
 
 
+class DiagnosticHook(Hooks):
+    """A user hook that evaluates the right-hand side once after every step (as a hook computing an energy, a defect or
+    an error against a numerically integrated reference does).  Listed after the hooks under test, so the work it causes
+    happens between their post_step and the next pre_step: it belongs to no step."""
+
+    def post_step(self, step, level_number):
+        super().post_step(step, level_number)
+        L = step.levels[0]
+        L.prob.eval_f(L.uend, L.time + L.dt)
+
+
 def resolve(name):
     if not isinstance(name, str):
         return name
